@@ -1,7 +1,7 @@
 (* C09 — static size and resource figures are true upper bounds. Statements only; proofs in
    Proofs/Ext*.v over the model Ms/ExtModel.v (extra_props.rs, script_size, descriptor weights,
    Plan accounting) and Ms/Sat.v (satisfier). *)
-From Verif Require Import TypeCheck ExtModel ExtProofs ExtLemmas ExtThresh ExtSatSide ExtBounds.
+From Verif Require Import ExecTr TypeCheck ExtModel ExtProofs ExtLemmas ExtThresh ExtSatSide ExtBounds ExtDesc ExtSize ExtExec.
 Local Open Scope N_scope.
 
 (* ---- the witness bounds (DESIGN 5/C09 wit_bounds) ----
@@ -63,6 +63,86 @@ Theorem C09_threshold_topk :
                /\ V sd_wcount T <= sd_wcount sd /\ V sd_wsize T <= sd_wsize sd /\ V sd_ssig T <= sd_ssig sd.
 Proof. exact th_sat_data_bound. Qed.
 Print Assumptions C09_threshold_topk.
+
+(* ---- descriptor weights (DESIGN 5/C09 desc_weight): bare / sh / wsh / sh(wsh) ----
+   max_weight_to_satisfy covers what the satisfaction weighs beyond the unsatisfied input
+   (4 WU per scriptSig byte incl. the growth of its length prefix, 1 WU per witness byte incl. the
+   item count, the witness script / redeem script and their prefixes). *)
+Theorem C09_desc_weight_partial :
+  forall fx dk c ke se mall rhs m l,
+    senv_ok c se -> ksort_len_ok ke -> ext_safe fx c m = true -> se_tap se = false ->
+    s_stack (snd (sat_dissat ke se mall rhs m)) = WStack l ->
+    exists w, desc_weight fx dk c m = Some w
+              /\ desc_measured dk se l (script_size_gen fx c m) <= w.
+Proof. exact desc_weight_bound. Qed.
+Print Assumptions C09_desc_weight_partial.
+
+(* taproot: one leaf's formula covers a script-path spend through that leaf, and
+   Tr::max_weight_to_satisfy is at least every satisfiable leaf's formula. (The key-path spend is
+   NOT covered when a tree is present: finding tr:keyspend-not-counted.) *)
+Theorem C09_tr_leaf_weight :
+  forall se d l ssz depth,
+    within se d l -> tr_measured se l ssz depth <= tr_leaf_weight depth ssz (sd_wcount d + 1) (sd_wsize d).
+Proof. exact tr_leaf_weight_bound. Qed.
+Print Assumptions C09_tr_leaf_weight.
+Theorem C09_tr_tree_weight :
+  forall leaves d ssz el sz,
+    In (d, ssz, Some (el, sz)) leaves ->
+    exists w, tr_tree_weight leaves = Some w /\ tr_leaf_weight d ssz el sz <= w.
+Proof. exact tr_tree_weight_ge. Qed.
+Print Assumptions C09_tr_tree_weight.
+
+(* ---- figures about the script itself ----
+   static_ops is EXACTLY the number of opcodes above OP_16 of the encoded script (what consensus
+   counts whether executed or not), in the contexts that have an opcode limit; has_free_verify says
+   exactly when the encoder fuses VERIFY into the last opcode. (script_size = encoded length is
+   proved by the C04 development; pk_cost is not: findings repair:unc and C04's multi_a num cost.) *)
+Theorem C09_static_ops_exact :
+  forall fx c ke m, no_multi_a m = true -> count_ops (enc ke m) = static_ops (ext_of_gen fx c m).
+Proof. exact static_ops_exact. Qed.
+Print Assumptions C09_static_ops_exact.
+Theorem C09_has_free_verify_exact :
+  forall fx c ke m, fv_script (enc ke m) = has_free_verify (ext_of_gen fx c m).
+Proof. exact fv_enc. Qed.
+Print Assumptions C09_has_free_verify_exact.
+
+(* ---- executed resources (DESIGN 5/C09 exec_bounds) ----
+   PARTIAL. Proved: the instrumented semantics used by the per-run oracle computes the same final
+   state as the Script semantics (so its counters describe the real execution), for all scripts,
+   states and traces. NOT proved: executed multisig keys <= max_exec_op_count and stack depth <=
+   max_witness_stack_count + max_exec_stack_count for every satisfaction; these are judged per run
+   on every satisfaction the implementation returns (sat engine | extracted exec_tr), which found
+   exec-stack:multi-num-pushes. *)
+Theorem C09_exec_tr_agrees_partial :
+  forall e s st t,
+    match exec_tr e s st t with
+    | Ok (st', _) => exec e s st = Ok st'
+    | Fail => exec e s st = Fail
+    end.
+Proof. exact exec_tr_agrees. Qed.
+Print Assumptions C09_exec_tr_agrees_partial.
+
+(* ---- Plan accounting (DESIGN 5/C09 plan_sizes): "announced >= real" is refuted three ways for
+   the accounting as written (findings plan:omits-script, plan:shwsh-scriptsig-push,
+   plan:legacy-varint-of-count); it is exact for taproot plans. *)
+Theorem C09_plan_witness_refuted :
+  exists sizes ssz, plan_witness_size PSegwitNative sizes < plan_real_witness PSegwitNative sizes ssz.
+Proof. exact plan_witness_refuted. Qed.
+Print Assumptions C09_plan_witness_refuted.
+Theorem C09_plan_shwsh_scriptsig_refuted :
+  exists sizes ssz, plan_scriptsig_size PShWsh sizes < plan_real_scriptsig PShWsh sizes ssz false.
+Proof. exact plan_shwsh_scriptsig_refuted. Qed.
+Print Assumptions C09_plan_shwsh_scriptsig_refuted.
+Theorem C09_plan_legacy_varint_refuted :
+  exists sizes, plan_scriptsig_size PLegacy sizes < plan_real_scriptsig PLegacy sizes 0 false.
+Proof. exact plan_legacy_varint_refuted. Qed.
+Print Assumptions C09_plan_legacy_varint_refuted.
+Theorem C09_plan_taproot_exact :
+  forall sizes ssz,
+    plan_witness_size PTaproot sizes = plan_real_witness PTaproot sizes ssz
+    /\ plan_scriptsig_size PTaproot sizes = plan_real_scriptsig PTaproot sizes ssz false.
+Proof. exact plan_taproot_exact. Qed.
+Print Assumptions C09_plan_taproot_exact.
 
 Example C09_nonvacuous :
   senv_ok cx_segwit se_key3 /\ ksort_len_ok ke0
